@@ -28,6 +28,7 @@ from simkit.runner import Check, scratch_base   # noqa: E402
 from simkit.seeds import digest                 # noqa: E402
 
 from insights.cleaner import Cleaner            # noqa: E402
+from worlds import w2_collect                   # noqa: E402,F401  (the end-to-end share: its imports -- DefaultSpecs -- belong to the base registry)
 
 SAFE = "gijnquvz"                 # letters that occur in no substitute vocabulary (hex, host<N>, example.com, keyword<N>)
 DELIMS = [" ", " ", " ", "\t", ",", ";", ":", "/", "(", ")", "[", "]", "=", '"', "'", "<", ">", "@", "#", "|", "!", "?", "{", "}"]
